@@ -61,6 +61,13 @@ type ProbeNested struct {
 	Vers  []version.Version `delim:","`
 }
 
+// only optional fields: the zero value writes no field at all
+type ProbeSparse struct {
+	A string
+	B []string `delim:","`
+	V version.Version
+}
+
 type ProbeBad struct {
 	Name string
 	M    map[string]string
@@ -75,6 +82,7 @@ var codecTypes = map[string]reflect.Type{
 	"ProbeBasic":      reflect.TypeOf(ProbeBasic{}),
 	"ProbeEmbedded":   reflect.TypeOf(ProbeEmbedded{}),
 	"ProbeNested":     reflect.TypeOf(ProbeNested{}),
+	"ProbeSparse":     reflect.TypeOf(ProbeSparse{}),
 	"ProbeBad":        reflect.TypeOf(ProbeBad{}),
 	"ProbeBad2":       reflect.TypeOf(ProbeBad2{}),
 	"DSC":             reflect.TypeOf(control.DSC{}),
@@ -293,6 +301,23 @@ func codecArgs(a []string) (reflect.Type, []string) {
 	return t, a[1+n:]
 }
 
+// encodeSequence writes n records of one type through a single Encoder
+func encodeSequence(a []string) (string, error) {
+	t, rest := codecArgs(a)
+	n, _ := strconv.Atoi(rest[0])
+	tr := &tokReader{ts: rest[1:]}
+	var buf bytes.Buffer
+	enc, _ := control.NewEncoder(&buf)
+	for i := 0; i < n; i++ {
+		v := reflect.New(t).Elem()
+		readGoRecord(v, tr)
+		if err := enc.Encode(v.Addr().Interface()); err != nil {
+			return "", err
+		}
+	}
+	return buf.String(), nil
+}
+
 func marshalGo(v reflect.Value) (string, error) {
 	var buf bytes.Buffer
 	err := control.Marshal(&buf, v.Addr().Interface())
@@ -329,6 +354,44 @@ var codecImpl = map[string]core.Adapter{
 			return "err"
 		}
 		return "ok " + core.Hex(text)
+	},
+	"codecenc": func(a []string) string {
+		text, err := encodeSequence(a)
+		if err != nil {
+			return "err"
+		}
+		return "ok " + core.Hex(text)
+	},
+	// law: paragraphs written one after another through the encoder read back as the same
+	// number of paragraphs (structs that write no field at all contribute none)
+	"law-enccount": func(a []string) string {
+		text, err := encodeSequence(a)
+		if err != nil {
+			return "FAIL encode: " + err.Error()
+		}
+		t, rest := codecArgs(a)
+		n, _ := strconv.Atoi(rest[0])
+		tr := &tokReader{ts: rest[1:]}
+		want := 0
+		for i := 0; i < n; i++ {
+			v := reflect.New(t).Elem()
+			readGoRecord(v, tr)
+			one, err := marshalGo(v)
+			if err != nil {
+				return "FAIL " + err.Error()
+			}
+			if one != "" {
+				want++
+			}
+		}
+		ps, err := readAllParas(text)
+		if err != nil {
+			return fmt.Sprintf("FAIL own output %q rejected: %v", text, err)
+		}
+		if len(ps) != want {
+			return fmt.Sprintf("FAIL %d non-empty paragraphs written, %d read back from %q", want, len(ps), text)
+		}
+		return "ok"
 	},
 	"codecrt": func(a []string) string {
 		t, rest := codecArgs(a)
@@ -611,6 +674,25 @@ func streamCodec(g *core.G) {
 				continue // plain nested structs are decodable but not marshallable: outside the claim
 			}
 			o, a := codecOp(op, typ, rec...)
+			g.Emit(o, a...)
+		}
+	}
+	// sequences through one Encoder, with records that write nothing in between
+	for i := 0; i < n/4; i++ {
+		t := codecTypes["ProbeSparse"]
+		k := r.Range(1, 5)
+		args := []string{strconv.Itoa(k)}
+		for j := 0; j < k; j++ {
+			if r.Chance(1, 3) {
+				for f := 0; f < t.NumField(); f++ {
+					args = append(args, "z")
+				}
+			} else {
+				args = append(args, genRecordTokens(r, t)...)
+			}
+		}
+		for _, op := range []string{"codecenc", "law-enccount"} {
+			o, a := codecOp(op, "ProbeSparse", args...)
 			g.Emit(o, a...)
 		}
 	}
